@@ -312,6 +312,13 @@ def worker(payload):
             if sorted(est) != free_sorted or list(r.data.betaNames) != free_sorted:
                 fail('results list exactly the free parameters, by sorted name', case, free_sorted, [sorted(est), list(r.data.betaNames)])
                 continue
+            # a selection of names, in ANY order (reversed, rotated, with a repetition), gets each name's own estimate
+            for sel in (list(reversed(free_sorted)), free_sorted[1:] + free_sorted[:1], free_sorted[-1:] + free_sorted[:1] + free_sorted[-1:]):
+                got_sel = r.get_beta_values(list(sel))
+                if any(float(got_sel[n]) != float(est[n]) for n in sel) or set(got_sel) != set(sel):
+                    fail('get_beta_values(names in any order): every name gets its own estimate', dict(case, requested=list(sel)),
+                         {n: float(est[n]) for n in sel}, {k: float(v) for k, v in got_sel.items()})
+                    break
             th_hat = list(init)
             for n, v in est.items():
                 th_hat[key_of[n]] = float(v)
